@@ -1,8 +1,9 @@
-"""C18 — multi-row store updates are all-or-nothing (MySQL adapter + store mappers, fake database/sql driver)."""
+"""C18 — multi-row store updates are all-or-nothing.
+MySQL adapter over a fake database/sql driver, PostgreSQL adapter over a fake wire-protocol backend, store mappers over both."""
 import os, json, collections, concurrent.futures
 import vlib
 
-DEVS = ("DEV_CredUpsertShadowedErr", "DEV_UsersCreateCompensates", "DEV_TopicsCreateTwoTx", "DEV_DeleteListThreeTx")
+DEVS = ("DEV_CredUpsertShadowedErr", "DEV_PgCredUpsertShadowedErr", "DEV_UsersCreateCompensates", "DEV_TopicsCreateTwoTx", "DEV_DeleteListThreeTx")
 
 
 def site_of(v):
@@ -20,7 +21,7 @@ def site_of(v):
         if e["pos"] == k:
             hit = "tx%d/%s#%d" % (txno, key, seen[key])
             break
-    lvl = "mysql" if v["level"] != "store" else "store"
+    lvl = "store" if v["level"] == "store" else ("postgres" if v["dialect"] == "pg" else "mysql")
     return "%s.%s/%s" % (lvl, v["op"], hit or "-")
 
 
@@ -34,7 +35,7 @@ def brief(v, full):
         if e["e"] in ("STMT", "PREP") and not e["intx"]:
             s += " [no tx]"
         return "c%d:%s" % (e["c"], s)
-    return {"op": v["op"], "branch": v["branch"], "cfg": v["cfg"], "fault": v["fault"], "k": v["k"], "at": v["at"],
+    return {"adapter": "postgres" if v["dialect"] == "pg" else "mysql", "op": v["op"], "branch": v["branch"], "cfg": v["cfg"], "fault": v["fault"], "k": v["k"], "at": v["at"],
             "events": [ev(e) for e in v["events"]], "returned_err": v["returned_err"], "error": full.get("errtext", ""),
             "open_tx_after": v["open_tx_after"], "connections_never_released": v["inuse_after"],
             "fault_free_round_trips": v["n"], "fault_free_writes": v["nw"]}
@@ -42,22 +43,29 @@ def brief(v, full):
 
 def run(ctx):
     thorough = ctx.tier == "thorough"
-    pool = concurrent.futures.ThreadPoolExecutor(max_workers=6)
+    pool = concurrent.futures.ThreadPoolExecutor(max_workers=10)
 
-    # ---- U1: design check of the as-intended discipline (generic programs, then the concrete program table),
-    # and three sanity runs that MUST be violated (the model reproduces the known deviations / catches the mutation).
-    w = max(2, vlib.NCPU // 4)
-    f_gen = pool.submit(ctx.tlc_must_pass, "Tx", "Tx_thorough.cfg" if thorough else "Tx.cfg", workers=vlib.NCPU // 2, timeout=1500)
-    f_tab = pool.submit(ctx.tlc_must_pass, "Tx", "Tx_table.cfg", workers=w, timeout=900)
-    f_san = {name: pool.submit(ctx.tlc, "Tx", cfg, workers=w, timeout=900) for name, cfg in (
-        ("InvNoOpenTxAtReturn", "Tx_asbuilt_open.cfg"), ("InvAllOrNothing", "Tx_asbuilt_atomic.cfg"), ("InvNoOpenTxAtReturn/mutant", "Tx_mutant.cfg"))}
-
-    # ---- E4: the real adapter and the real store mappers under the fake driver
+    # ---- E4: the real adapters and the real store mappers under the fake driver / fake backend
     out = os.path.join(ctx.scratch, "c18_raw.ndjson")
-    go_out, go_wall = ctx.go_test_must_run("./db/mysql/", "TestVerifC18(Adapter|Store)$", tags="verif mysql", timeout=900,
-                                           env={"VERIF_OUT": out, "VERIF_C18_VARIANTS": 2000 if thorough else 40,
-                                                "VERIF_C18_STORE_VARIANTS": 120 if thorough else 6}, extra=["-v"])
-    full = vlib.read_ndjson(out) + vlib.read_ndjson(out + ".store")
+    env = {"VERIF_OUT": out, "VERIF_C18_VARIANTS": 2000 if thorough else 40, "VERIF_C18_STORE_VARIANTS": 120 if thorough else 6}
+    f_my = pool.submit(ctx.go_test_must_run, "./db/mysql/", "TestVerifC18(Adapter|Store)$", tags="verif mysql", timeout=900, env=env, extra=["-v"])
+    f_pg = pool.submit(ctx.go_test_must_run, "./db/postgres/", "TestVerifC18Pg(Adapter|Store)$", tags="verif postgres", timeout=900, env=env, extra=["-v"])
+    # ---- U1: design check of the as-intended discipline under both sets of semantics (database/sql+MySQL, pgx+PostgreSQL):
+    # generic programs, then the concrete program table; and sanity runs that MUST be violated (the model reproduces the
+    # known deviations / catches the mutation).
+    w = max(2, vlib.NCPU // 4)
+    sfx = "_thorough.cfg" if thorough else ".cfg"
+    f_must = {name: pool.submit(ctx.tlc_must_pass, "Tx", cfg, workers=wk, timeout=1500) for name, cfg, wk in (
+        ("generic/mysql", "Tx" + sfx, vlib.NCPU // 2), ("generic/pg", "TxPg" + sfx, vlib.NCPU // 2),
+        ("table/mysql", "Tx_table.cfg", w), ("table/pg", "TxPg_table.cfg", w))}
+    f_san = {name: pool.submit(ctx.tlc, "Tx", cfg, workers=w, timeout=900) for name, cfg in (
+        ("InvNoOpenTxAtReturn/mysql", "Tx_asbuilt_open.cfg"), ("InvNoOpenTxAtReturn/pg", "TxPg_asbuilt_open.cfg"),
+        ("InvAllOrNothing/mappers", "Tx_asbuilt_atomic.cfg"), ("InvNoOpenTxAtReturn/mutant", "Tx_mutant.cfg"))}
+
+    (_, wall_my), (_, wall_pg) = f_my.result(), f_pg.result()
+    full = []
+    for sfx2 in ("", ".store", ".pg", ".pgstore"):
+        full += vlib.read_ndjson(out + sfx2)
     if not full:
         raise vlib.Infra("recorder wrote no traces")
     vectors = []
@@ -65,11 +73,13 @@ def run(ctx):
         v = {k: r[k] for k in r if k not in ("sql", "errtext")}
         vectors.append(v)
     vlib.write_ndjson(os.path.join(ctx.specdir, "c18_vectors.ndjson"), vectors)
-    vlib.log("recorded %d runs (%d adapter-level, %d store-level) in %.1fs" % (
-        len(vectors), sum(1 for v in vectors if v["level"] != "store"), sum(1 for v in vectors if v["level"] == "store"), go_wall))
+    cnt = collections.Counter((v["dialect"], v["level"] == "store") for v in vectors)
+    vlib.log("recorded %d runs: mysql %d adapter-level + %d store-level (%.1fs), postgres %d + %d (%.1fs)" % (
+        len(vectors), cnt[("mysql", False)], cnt[("mysql", True)], wall_my, cnt[("pg", False)], cnt[("pg", True)], wall_pg))
 
-    r1, r1b = f_gen.result(), f_tab.result()
-    vlib.log("U1 Tx generic: %d states, %.1fs; Tx program table: %d states, %.1fs" % (r1.distinct, r1.wall, r1b.distinct, r1b.wall))
+    res = {name: f.result() for name, f in f_must.items()}
+    r1, r1b = res["generic/mysql"], res["table/mysql"]
+    vlib.log("U1 " + "; ".join("%s: %d states, %.1fs" % (n, r.distinct, r.wall) for n, r in res.items()))
     for name, fut in f_san.items():
         r = fut.result()
         inv = name.split("/")[0]
@@ -77,15 +87,18 @@ def run(ctx):
             import sys
             sys.stdout.write(r.out[-3000:])
             raise vlib.Infra("sanity run for %s did not produce the expected model counterexample: the spec lost its teeth" % name)
-    vlib.log("sanity: as-built CredUpsert model violates NoOpenTxAtReturn, as-built mapper compositions violate AllOrNothing, shadowed-err mutant is caught")
+    vlib.log("sanity: as-built CredUpsert model (both adapters) violates NoOpenTxAtReturn, as-built mapper compositions violate AllOrNothing, shadowed-err mutant is caught")
 
     # ---- which as-built variant of the model the binding is held against: the CredUpsert deviation is recognised from the
     # source text (so that a `fix:` commit in /repo is followed without editing the spec); this selects the PREDICTION only,
     # the verdict below never depends on it.
     src = open(os.path.join(vlib.REPO, "server/db/mysql/adapter.go")).read()
     shadowed = 'res, err := tx.Exec("UPDATE credentials SET updatedat=?,deletedat=NULL' in src
+    srcpg = open(os.path.join(vlib.REPO, "server/db/postgres/adapter.go")).read()
+    shadowed_pg = 'res, err := tx.Exec(ctx, "UPDATE credentials SET updatedat=$1,deletedat=NULL' in srcpg
     cfgp = os.path.join(ctx.specdir, "Monitor_C18.cfg")
     cfg = open(cfgp).read().replace("DEV_CredUpsertShadowedErr = TRUE", "DEV_CredUpsertShadowedErr = %s" % ("TRUE" if shadowed else "FALSE"))
+    cfg = cfg.replace("DEV_PgCredUpsertShadowedErr = TRUE", "DEV_PgCredUpsertShadowedErr = %s" % ("TRUE" if shadowed_pg else "FALSE"))
     open(cfgp, "w").write(cfg)
 
     # ---- verdict and binding by TLC
@@ -94,44 +107,52 @@ def run(ctx):
     for k, mons in fails:
         v = vectors[k - 1]
         for m in mons:
-            ctx.fail(m, brief(v, full[k - 1]), op=v["op"], branch=v["branch"], cfg=v["cfg"], fault=v["fault"], k=v["k"],
-                     site=site_of(v), input_class="%s/%s/%s" % (v["level"], v["fault"], v["cfg"]))
+            ctx.fail(m, brief(v, full[k - 1]), adapter="postgres" if v["dialect"] == "pg" else "mysql", op=v["op"], branch=v["branch"],
+                     cfg=v["cfg"], fault=v["fault"], k=v["k"], site=site_of(v),
+                     input_class="%s/%s/%s/%s" % (v["dialect"], v["level"], v["fault"], v["cfg"]))
     for k, what in divs:
         ctx.divergences.append({"trace": brief(vectors[k - 1], full[k - 1]), "what": what})
 
     ops = collections.Counter(v["op"] for v in vectors)
-    branches = {(v["op"], v["branch"]) for v in vectors}
+    branches = {(v["dialect"], v["op"], v["branch"]) for v in vectors}
     faults = collections.Counter(v["fault"] for v in vectors)
     nontrivial = sum(1 for v in vectors if v["applied"])
-    positions = {(v["op"], v["branch"], v["cfg"], v["k"]) for v in vectors if v["k"] > 0}
+    positions = {(v["dialect"], v["op"], v["branch"], v["cfg"], v["k"]) for v in vectors if v["k"] > 0}
     ctx.cov.update({
-        "states": r1.distinct + r1b.distinct + r2.distinct, "transitions": r1.generated + r1b.generated + r2.generated,
+        "states": sum(r.distinct for r in res.values()) + r2.distinct, "transitions": sum(r.generated for r in res.values()) + r2.generated,
         "traces_validated_against_impl": len(vectors),
         "evaluations": sum(len(v["events"]) for v in vectors), "distinct_nontrivial": nontrivial,
-        "rule": "all 20 transactional methods of server/db/mysql/adapter.go (every method that calls BeginTxx/Begin except the schema tools CreateDb/UpgradeDb) "
-                "x %d branches (canned results / argument shapes; %d seeded variants) x {sql_timeout unset, set} x every round-trip position k "
-                "(BEGIN, PREPARE, each statement, COMMIT) x {statement error, connection loss, result-set error on queries, deadline expiry (timeout config)}; "
-                "13 single-statement writers for NoWriteOutsideTx; mapper compositions Users.Create, Topics.Create, Messages.DeleteList through the real "
-                "store.go x every position x {error, connection loss, outage}; non-trivial = a fault was actually injected" % (
+        "rule": "for BOTH SQL adapters (server/db/mysql over a fake database/sql driver, server/db/postgres over a fake wire-protocol backend): "
+                "all 20 transactional methods (every method that calls BeginTxx/BeginTx/Begin except the schema tools CreateDb/UpgradeDb) "
+                "x %d (adapter, op, branch) combinations (canned results / argument shapes; %d seeded variants per adapter) x {sql_timeout unset, set} "
+                "x every round-trip position k (BEGIN, PREPARE, each statement, COMMIT) x {statement error, connection loss, "
+                "result-set error on queries (mysql), deadline expiry (timeout config)}; 13 single-statement writers for NoWriteOutsideTx; "
+                "mapper compositions Users.Create, Topics.Create, Messages.DeleteList through the real store.go on each adapter "
+                "x every position x {error, connection loss, outage}; non-trivial = a fault was actually injected" % (
                     len(branches), 2000 if thorough else 40),
-        "per_op": dict(ops), "per_fault": dict(faults), "branches": len(branches), "fault_positions": len(positions),
+        "per_op": dict(ops), "per_fault": dict(faults), "per_adapter": {"mysql": cnt[("mysql", False)] + cnt[("mysql", True)],
+                                                                          "postgres": cnt[("pg", False)] + cnt[("pg", True)]},
+        "branches": len(branches), "fault_positions": len(positions),
         "exhaustive": True,
-        "model": {"module": "Tx", "generic": {"generated": r1.generated, "distinct": r1.distinct, "max_statements": 4 if thorough else 3},
-                  "table": {"generated": r1b.generated, "distinct": r1b.distinct}},
+        "model": {"module": "Tx", "max_statements": 4 if thorough else 3,
+                  "runs": {n: {"generated": r.generated, "distinct": r.distinct} for n, r in res.items()}},
         "monitor_run": {"module": "Monitor_C18", "vectors": len(vectors),
-                        "as_built": [d for d in DEVS if d != "DEV_CredUpsertShadowedErr" or shadowed]},
-        "level_note": "claim limited to the MySQL adapter (database/sql seam); the PostgreSQL adapter (pgxpool, no seam) is not executed — its "
-                      "transactional functions are line-for-line parallel, including the CredUpsert shadowed err",
+                        "as_built": [d for d in DEVS if (d != "DEV_CredUpsertShadowedErr" or shadowed) and (d != "DEV_PgCredUpsertShadowedErr" or shadowed_pg)]},
+        "level_note": "both SQL adapters are executed for real (MySQL: database/sql seam; PostgreSQL: pgxpool over an in-process fake backend "
+                      "speaking the wire protocol with pgproto3); the MongoDB and RethinkDB adapters are outside the property (no transactions)",
     })
     ctx.assumptions += [
         "the database honours BEGIN/COMMIT/ROLLBACK (a rolled-back or lost transaction has no effect; a failed COMMIT commits nothing)",
         "database/sql and sqlx behave as shipped (they are executed for real; only the driver below them is fake)",
-        "one round trip per statement: the fake answers Exec/Query directly, the real MySQL driver may use prepare+execute+close for the same call",
+        "one round trip per statement: the fakes answer Exec/Query directly; the real MySQL driver may use prepare+execute+close and pgx "
+        "Parse/Describe before the first Bind/Execute of a statement text for the same call (plumbing, not counted as positions)",
+        "the fake PostgreSQL backend keeps the aborted-transaction semantics (25P02 until ROLLBACK [TO SAVEPOINT], COMMIT answers ROLLBACK)",
         "a compensating transaction is judged at table granularity: a later committed, purely deleting transaction that deletes from every table "
         "the earlier one wrote to cancels it",
         "CreateDb/UpgradeDb (DDL, auto-committed by MySQL) are outside the property's list of operations",
     ]
     pick = [v for v in vectors if v["op"] == "TopicDelete" and v["fault"] == "err" and v["k"] == 3][:1] + \
+           [v for v in vectors if v["dialect"] == "pg" and v["op"] == "TopicShare" and v["fault"] == "err" and v["k"] == 2][:1] + \
            [v for v in vectors if v["op"] == "UserCreate" and v["fault"] == "deadline" and v["k"] == 4][:1] + \
            [v for v in vectors if v["op"] == "Users.Create" and v["fault"] == "err" and v["at"] == "STMT"][-1:] + \
            [v for v in vectors if v["op"] == "MessageDeleteList" and v["fault"] == "none"][:1]
